@@ -68,7 +68,7 @@ static CK_ULONG add_n(int o) { return o == 0 ? OUT(add_n0) : o == 1 ? OUT(add_n1
 CK_RV vp_find(void)
 __CPROVER_requires(VP_FRESH_GHOST && !(TOK(SO) && TOK(USER)) && (!TOK(SO) || SES(RW)) && SES(OPTYPE) <= 0x10 && IN(w) <= 2)
 /* tier bounds */
-__CPROVER_requires(SES(TCOUNT) <= VP_FIND_TMAX && (VP_FIND_NOBJ >= 3 || !IN(present1)))
+__CPROVER_requires(SES(TCOUNT) <= VP_FIND_TMAX && (VP_FIND_NOBJ >= 3 || !IN(present1)) && (VP_FIND_NOBJ >= 2 || !IN(present0) || !IN(present2)))
 __CPROVER_requires(SES(TCOUNT) <= VP_TMPL_MAX && TMPL(0, LEN) <= 8 && TMPL(1, LEN) <= 8 && (!SES(NULL_OUT) || SES(TCOUNT) == 0))
 /* C12: one operation at a time; a failed find leaves no active operation */
 __CPROVER_ensures((SES(INIT) && SES(VALID) && !SES(TOKEN_NULL) && SES(OPTYPE) != 0) ==> (RV == CKR_OPERATION_ACTIVE && VP_NO_EFFECT && OUT(setHandles_n) == 0))
@@ -95,10 +95,10 @@ void h_find(void)
 {
   VP_HAVOC_SOFTHSM(); __CPROVER_havoc_object(vp_in); __CPROVER_havoc_object(vp_in_tbytes);
   vp_call_C_FindObjectsInit();
-  VP_COVER(vp_rv == CKR_OK && OUT(found0) && (OUT(found1) || VP_FIND_NOBJ < 3) && OUT(found2) && SES(TCOUNT) == VP_FIND_TMAX);
-  VP_COVER(vp_rv == CKR_OK && OUT(found2) && !OUT(found0) && IN(present0) && OBJX(0, VALID) && SES(TCOUNT) == 1);
+  VP_COVER(vp_rv == CKR_OK && OUT(found0) && (OUT(found1) || VP_FIND_NOBJ < 3) && (OUT(found2) || VP_FIND_NOBJ < 2) && SES(TCOUNT) == VP_FIND_TMAX);
+  VP_COVER(vp_rv == CKR_OK && !OUT(found0) && IN(present0) && OBJX(0, VALID) && SES(TCOUNT) == 1);
   VP_COVER(vp_rv == CKR_OK && OUT(found0) && SES(TCOUNT) == 1 && TMPL(0, TYPE) == CKA_LABEL && TMPL(0, LEN) == 5 && priv_of(0));
   VP_COVER(vp_rv == CKR_OK && OUT(found2) && SES(TCOUNT) == 1 && TMPL(0, TYPE) == CKA_CLASS);
   VP_COVER(vp_rv == CKR_GENERAL_ERROR);
-  VP_COVER(vp_rv == CKR_OK && !VP_SES_USER && IN(present0) && priv_of(0) && OUT(found2));
+  VP_COVER(vp_rv == CKR_OK && !VP_SES_USER && IN(present0) && priv_of(0) && !OUT(found0));
 }
